@@ -5,7 +5,7 @@ cd "$(dirname "$0")/.."
 (cd engine && go build -o ../bin/gosym .) || exit 2
 for id in ${1:-C04 C05 C08 C09 C10 C13 C14 C15 C16 C19 C20 C11 C12 C06 C17 C01 C02 C07 C03 C18}; do
   s=$(date +%s)
-  out=$(./check $id --tier thorough 2>&1)
+  out=$(./check $id --tier thorough --repo "${VP_RUN_REPO:-/repo}" 2>&1)
   rc=$?
   e=$(date +%s)
   echo "== $id rc=$rc wall=$((e-s))s"
